@@ -412,4 +412,159 @@ theorem matchGeometry_shift_refused {α : Type} (src : Vol α) (T : Geom) (tol :
   rw [hg, hplan]
 
 
+/-! ## … and perturbed spacings -/
+
+/-- the alignment of one target axis that runs along source axis `j` (forwards or backwards) with spacing `(|st| + e)` source
+spacings, `|e| < 1/2`: stride `st` when `|e| ≤ tol`, RuntimeError when `|e| > tol` -/
+theorem alignAxis_scaled (src : Geom) (hwf : WF src) (j : Ax) (st : Int) (hst : st ≠ 0) (e tol : Rat) (h0 : 0 < tol)
+    (h1 : tol ≤ 1) (e1 : -(1 / 2) < e) (e2 : e < 1 / 2) :
+    (rabs e ≤ tol → alignAxis src (if st < 0 then V3.neg (src.dir j) else src.dir j)
+        ((((st.natAbs : Int) : Rat) + e) * src.spacing j) tol = .ok (j, st)) ∧
+    (tol < rabs e → alignAxis src (if st < 0 then V3.neg (src.dir j) else src.dir j)
+        ((((st.natAbs : Int) : Rat) + e) * src.spacing j) tol = .error .runtime) := by
+  have hdot : ∀ a, V3.dot (if st < 0 then V3.neg (src.dir j) else src.dir j) (src.dir a) =
+      if j = a then (((if st < 0 then (-1 : Int) else 1) : Int) : Rat) else 0 := by
+    intro a
+    by_cases hs : st < 0 <;> by_cases hja : j = a <;> simp [hs, hja, dot_neg_left, hwf.orth]
+  have hm : 1 ≤ ((st.natAbs : Int)) := by omega
+  have hσ : (if st < 0 then (-1 : Int) else 1) = 1 ∨ (if st < 0 then (-1 : Int) else 1) = -1 := by
+    split <;> simp
+  obtain ⟨hin, hout⟩ := mgAlign_scale (if st < 0 then (-1 : Int) else 1) hσ (st.natAbs : Int) hm e (src.spacing j) tol
+    (ne_of_gt (hwf.spacing_pos j)) h0 e1 e2
+  rw [natAbs_sign] at hin
+  constructor
+  · intro hle
+    have hpar := hin hle
+    unfold alignAxis
+    rcases ax_cases j with rfl | rfl | rfl
+    · rw [hdot 0, if_pos rfl, hpar]
+    · rw [hdot 0, if_neg (by decide), mgAlign_orth _ _ _ h1]
+      simp only []
+      rw [hdot 1, if_pos rfl, hpar]
+    · rw [hdot 0, if_neg (by decide), mgAlign_orth _ _ _ h1]
+      simp only []
+      rw [hdot 1, if_neg (by decide), mgAlign_orth _ _ _ h1]
+      simp only []
+      rw [hdot 2, if_pos rfl, hpar]
+  · intro hgt
+    have hbad := hout hgt
+    unfold alignAxis
+    rcases ax_cases j with rfl | rfl | rfl
+    · rw [hdot 0, if_pos rfl, hbad]
+    · rw [hdot 0, if_neg (by decide), mgAlign_orth _ _ _ h1]
+      simp only []
+      rw [hdot 1, if_pos rfl, hbad]
+    · rw [hdot 0, if_neg (by decide), mgAlign_orth _ _ _ h1]
+      simp only []
+      rw [hdot 1, if_neg (by decide), mgAlign_orth _ _ _ h1]
+      simp only []
+      rw [hdot 2, if_pos rfl, hbad]
+
+theorem matchPlan_congr (G T R : Geom) (hp : T.pos = R.pos) (hs : T.shape = R.shape) (steps : Ax → Int) (tol : Rat) :
+    matchPlan G T steps tol = matchPlan G R steps tol := by
+  unfold matchPlan planAxis; rw [hp, hs]
+
+/-- the exact target next to one with perturbed spacings -/
+def onLatticeSpacing (src T : Geom) (p : Ax → Ax) (first st : Ax → Int) : Geom :=
+  { T with spacing := (sliceGeom (permuted src p) first st T.shape).spacing }
+
+/-- **non-integer scale, whole call**: a target on a reachable lattice whose spacing along axis `i` is `|st i| + e i` source
+spacings (`|e i| < 1/2`) is matched — with the volume returned for the exact spacing — when every `|e i| ≤ tol` and its affine
+is within `tol` of the exact one as `geometry_equal` measures it; it is refused with RuntimeError when some `|e i| > tol` -/
+theorem matchGeometry_scaled {α : Type} (src : Vol α) (T : Geom) (tol : Rat) (c : PadMode α)
+    (hwf : WF src.geom) (hshape : ∀ i, 1 ≤ T.shape i) (h0 : 0 < tol) (h1 : tol ≤ 1)
+    (p : Ax → Ax) (first st : Ax → Int) (hp : isPerm p = true) (hst : ∀ i, st i ≠ 0)
+    (hdir : T.dir = (sliceGeom (permuted src.geom p) first st T.shape).dir)
+    (hpos : T.pos = (sliceGeom (permuted src.geom p) first st T.shape).pos)
+    (hcs : T.cs = src.geom.cs) (hfor : forConflict src.geom T = false)
+    (e : Ax → Rat) (he : ∀ i, -(1 / 2) < e i ∧ e i < 1 / 2)
+    (hsp : ∀ i, T.spacing i = ((((st i).natAbs : Int) : Rat) + e i) * src.geom.spacing (p i)) :
+    ((∀ i, rabs (e i) ≤ tol) → AffineWithin (onLatticeSpacing src.geom T p first st) T (some tol) →
+      ∃ r, matchGeometry src T tol c = .ok r ∧ matchGeometry src (onLatticeSpacing src.geom T p first st) tol c = .ok r ∧
+        (∀ i, r.geom.col i = (onLatticeSpacing src.geom T p first st).col i) ∧ r.geom.pos = T.pos ∧
+        (∀ i, r.geom.shape i = T.shape i)) ∧
+    ((∃ i, tol < rabs (e i)) → matchGeometry src T tol c = .error .runtime) := by
+  set R := onLatticeSpacing src.geom T p first st with hRdef
+  have hhead : mgHead src.geom.frameOfRef T.frameOfRef src.geom.cs T.cs = .ok true := by
+    rcases mgHead_spec src.geom T with ⟨_, _, hh⟩ | ⟨hb, _⟩
+    · exact hh
+    · rcases hb with hb | hb
+      · rw [hfor] at hb; cases hb
+      · exact absurd hcs.symm hb
+  have haxis : ∀ i, alignAxis src.geom (T.dir i) (T.spacing i) tol =
+      alignAxis src.geom (if st i < 0 then V3.neg (src.geom.dir (p i)) else src.geom.dir (p i))
+        (((((st i).natAbs : Int) : Rat) + e i) * src.geom.spacing (p i)) tol := by
+    intro i
+    rw [hdir, hsp i]
+    simp only [sliceGeom, permuted]
+  constructor
+  · intro hle hclose
+    have hRreach : Reachable src.geom R := ⟨p, first, st, hp, hst, hdir, rfl, hpos, hcs, hfor⟩
+    obtain ⟨r, hr, hcol, hposr, hshr⟩ := matchGeometry_complete src R tol c hwf hshape h0 h1 hRreach
+    obtain ⟨_, _, p', steps, nv, pl, hal, hperm, hplan, happ, hge⟩ := matchGeometry_ok src R tol c r hr
+    have hpp : p' = p ∧ steps = st := by
+      have := matchAlign_reach src.geom R hwf tol h0 h1 p first st hst hdir rfl
+      rw [hal] at this
+      simpa using this
+    obtain ⟨rfl, rfl⟩ := hpp
+    have hal' : matchAlign src.geom T tol = .ok (p', steps) := by
+      unfold matchAlign
+      rw [haxis 0, haxis 1, haxis 2,
+        (alignAxis_scaled src.geom hwf (p' 0) (steps 0) (hst 0) (e 0) tol h0 h1 (he 0).1 (he 0).2).1 (hle 0),
+        (alignAxis_scaled src.geom hwf (p' 1) (steps 1) (hst 1) (e 1) tol h0 h1 (he 1).1 (he 1).2).1 (hle 1),
+        (alignAxis_scaled src.geom hwf (p' 2) (steps 2) (hst 2) (e 2) tol h0 h1 (he 2).1 (he 2).2).1 (hle 2)]
+      simp only [mk3_eta]
+    have hplan' : matchPlan nv.geom T steps tol = .ok pl := by
+      rw [matchPlan_congr nv.geom T R rfl rfl]; exact hplan
+    have hge' : geometryEqual r.geom T (some tol) = .ok true := by
+      obtain ⟨gs, gc, gf, _⟩ := (geometryEqual_true_iff r.geom R (some tol)).mp hge
+      rw [geometryEqual_true_iff]
+      refine ⟨gs, gc, gf, ?_, ?_⟩
+      · intro i; rw [hcol i]; exact hclose.1 i
+      · rw [hposr]; exact hclose.2
+    refine ⟨r, ?_, hr, hcol, hposr, hshr⟩
+    unfold matchGeometry
+    rw [hhead]
+    simp only []
+    rw [hal']
+    simp only []
+    rw [hperm]
+    simp only []
+    rw [hplan']
+    simp only []
+    rw [happ]
+    simp only []
+    rw [hge']
+  · rintro ⟨i, hi⟩
+    have hax : ∀ a, alignAxis src.geom (T.dir a) (T.spacing a) tol = .error .runtime ∨
+        ∃ x, alignAxis src.geom (T.dir a) (T.spacing a) tol = .ok x := by
+      intro a
+      rw [haxis a]
+      by_cases hb : tol < rabs (e a)
+      · exact Or.inl ((alignAxis_scaled src.geom hwf (p a) (st a) (hst a) (e a) tol h0 h1 (he a).1 (he a).2).2 hb)
+      · exact Or.inr ⟨_, (alignAxis_scaled src.geom hwf (p a) (st a) (hst a) (e a) tol h0 h1 (he a).1 (he a).2).1 (not_lt.mp hb)⟩
+    have hbad : alignAxis src.geom (T.dir i) (T.spacing i) tol = .error .runtime := by
+      rw [haxis i]
+      exact (alignAxis_scaled src.geom hwf (p i) (st i) (hst i) (e i) tol h0 h1 (he i).1 (he i).2).2 hi
+    have hal : matchAlign src.geom T tol = .error .runtime := by
+      unfold matchAlign
+      rcases hax 0 with h | ⟨x0, h⟩
+      · rw [h]
+      · rw [h]; simp only []
+        rcases hax 1 with h' | ⟨x1, h'⟩
+        · rw [h']
+        · rw [h']; simp only []
+          rcases hax 2 with h'' | ⟨x2, h''⟩
+          · rw [h'']
+          · exfalso
+            rcases ax_cases i with rfl | rfl | rfl
+            · rw [hbad] at h; cases h
+            · rw [hbad] at h'; cases h'
+            · rw [hbad] at h''; cases h''
+    unfold matchGeometry
+    rw [hhead]
+    simp only []
+    rw [hal]
+
+
 end HdVerif.Match
